@@ -7,13 +7,15 @@
 From Coq Require Import Bool List NArith ZArith Lia.
 From Coq.Strings Require Import Byte.
 From GoUefi Require Import Base.Bytes Base.Outcome Base.Reader Base.Der Base.Sha256 Model.Pkcs7
-  Spec.P7Check Proofs.DerProofs Proofs.P7Proofs Proofs.P7SignProofs.
+  Spec.P7Check Proofs.DerProofs Proofs.P7Proofs Proofs.P7SignProofs Proofs.AttrSort.
+From Coq Require Import Permutation.
 Import ListNotations.
 Local Open Scope N_scope.
 
 (* the DER that is produced: SHA-256 AlgorithmIdentifier with NULL, the
    certificate embedded, one SignerInfo identified by issuer and serial, the
-   attribute SET {contentType; signingTime; messageDigest}, RSA, the signature *)
+   attribute SET {contentType; signingTime; messageDigest} in the order of the
+   encodings (DER SET OF), RSA, the signature *)
 Theorem C05_shape : forall cert_raw issuer_raw serial oid content time sig,
   sign_pkcs7 cert_raw issuer_raw serial oid content time sig =
   der_seq (der_oid OID_signedData ++ add_asn1 T_CTX0 (der_seq (
@@ -23,19 +25,36 @@ Theorem C05_shape : forall cert_raw issuer_raw serial oid content time sig,
     add_asn1 T_CTX0 cert_raw ++
     der_set (der_seq (
       der_int 1 ++ der_seq (issuer_raw ++ der_int serial) ++ alg_id OID_sha256 ++
-      add_asn1 T_CTX0 (attr OID_attr_contentType (der_oid oid) ++
-                       attr OID_attr_signingTime (add_asn1 T_UTCTIME time) ++
-                       attr OID_attr_messageDigest (der_octets (sha256 content))) ++
+      add_asn1 T_CTX0 (concat (sort_b [attr OID_attr_contentType (der_oid oid);
+                                       attr OID_attr_signingTime (add_asn1 T_UTCTIME time);
+                                       attr OID_attr_messageDigest (der_octets (sha256 content))])) ++
       alg_id OID_rsa ++ der_octets sig))))).
-Proof. intros. unfold sign_pkcs7, signed_data, attrs_body. cbn [flat_map]. rewrite app_nil_r. reflexivity. Qed.
+Proof. intros. reflexivity. Qed.
+
+(* the order of the attributes is DER's for every content type, however long its
+   OID: no attribute is followed by one whose encoding is smaller, and the set
+   holds exactly the attributes it is made of *)
+Theorem C05_attributes_der_sorted : forall l, sorted_b (sort_b l) /\ Permutation (sort_b l) l.
+Proof. intros l. split; [apply sort_sorted | apply sort_perm]. Qed.
+
+(* ... which for the content types in use (any OID of at most 12 encoded octets:
+   data, SpcIndirectDataContent), a 13-character UTCTime and a SHA-256 digest is
+   contentType, signingTime, messageDigest *)
+Theorem C05_usual_order : forall oid t md,
+  1 <= blen (oid_encode oid) <= 12 -> blen t = 13 -> blen md = 32 ->
+  sort_b [attr OID_attr_contentType (der_oid oid); attr OID_attr_signingTime (add_asn1 T_UTCTIME t);
+          attr OID_attr_messageDigest (der_octets md)] =
+  [attr OID_attr_contentType (der_oid oid); attr OID_attr_signingTime (add_asn1 T_UTCTIME t);
+   attr OID_attr_messageDigest (der_octets md)].
+Proof. exact usual_order. Qed.
 
 (* what the signer is asked to sign: SHA-256 of the DER SET of those attributes *)
 Theorem C05_signed_bytes : forall oid content time,
   sign_pkcs7_tbs oid content time =
-  sha256 (der_set (attr OID_attr_contentType (der_oid oid) ++
-                   attr OID_attr_signingTime (add_asn1 T_UTCTIME time) ++
-                   attr OID_attr_messageDigest (der_octets (sha256 content)))).
-Proof. intros. unfold sign_pkcs7_tbs, attrs_marshal, attrs_body. cbn [flat_map]. rewrite app_nil_r. reflexivity. Qed.
+  sha256 (der_set (concat (sort_b [attr OID_attr_contentType (der_oid oid);
+                                   attr OID_attr_signingTime (add_asn1 T_UTCTIME time);
+                                   attr OID_attr_messageDigest (der_octets (sha256 content))]))).
+Proof. intros. reflexivity. Qed.
 
 (* serial numbers: minimal two's complement, for every non-negative value *)
 Theorem C05_serial_encoding : forall n, int_decode (int_encode n) = Some (Z.of_N n).
@@ -81,6 +100,8 @@ Example C05_example :
 Proof. repeat split; vm_compute; reflexivity. Qed.
 
 Print Assumptions C05_shape.
+Print Assumptions C05_attributes_der_sorted.
+Print Assumptions C05_usual_order.
 Print Assumptions C05_signed_bytes.
 Print Assumptions C05_serial_encoding.
 Print Assumptions C05_parses.
